@@ -74,6 +74,15 @@ func StrPtrEq(a, b *string) bool               { panic("intrinsic") }
 func Int64PtrEq(a, b *int64) bool              { panic("intrinsic") }
 func HasPrefix(s, p string) bool               { panic("intrinsic") }
 func GrpcCode(err error) int                   { panic("intrinsic") }
+func NamedConsts(pkg, typeName string) []int64 { panic("intrinsic") }
+func Unmarshalled(b []byte) any                { panic("intrinsic") }
+func UrlScheme(u string) string                { panic("intrinsic") }
+func UrlHost(u string) string                  { panic("intrinsic") }
+func UrlPath(u string) string                  { panic("intrinsic") }
+func UrlString(u string) string                { panic("intrinsic") }
+func UrlValid(u string) bool                   { panic("intrinsic") }
+func JsonValid(s string) bool                  { panic("intrinsic") }
+func JsonOfString(s string) string             { panic("intrinsic") }
 func TemplateTrouble() bool                    { panic("intrinsic") }
 func Like(s, pattern string) bool              { panic("intrinsic") }
 func LikePattern(clientPattern string) string  { panic("intrinsic") }
